@@ -443,7 +443,9 @@ unsafe fn kernel_vectored(iov: *const libc::iovec, cnt: usize, is_read: bool) ->
     IOV_CALLS += 1;
     // C17, second sentence: the element count the kernel is told must not run past the array it is handed. The array is a
     // heap allocation of exactly the rebuilt length, so "all `cnt` elements are readable" is decidable by the solver.
-    if !kani::mem::can_dereference(core::ptr::slice_from_raw_parts(iov, cnt)) {
+    // (the last element is readable iff all are: the array is one allocation; asking for the single element keeps the
+    // predicate cheap - asking for the whole slice with a symbolic length ran CBMC out of memory on a mutant)
+    if cnt > 0 && !kani::mem::can_dereference(iov.wrapping_add(cnt - 1)) {
         COUNT_OK = false;
         return fail(libc::EFAULT);
     }
@@ -467,7 +469,14 @@ unsafe fn kernel_vectored(iov: *const libc::iovec, cnt: usize, is_read: bool) ->
                 start += VLENS[j];
                 j += 1;
             }
-            if lp == usize::MAX || lp < cursor {
+            if lp == usize::MAX {
+                // not a range of the caller's buffers at all (e.g. an element read past the initialised part of the array):
+                // a real kernel answers EFAULT; stop here so that the garbage values do not flow into the rest of the run
+                IOV_OK = false;
+                NEXT_OK = false;
+                return fail(libc::EFAULT);
+            }
+            if lp < cursor {
                 IOV_OK = false;
                 NEXT_OK = false;
             } else {
